@@ -263,6 +263,14 @@ fn literal_pool() -> Vec<(&'static str, String, V)> {
     out.push(("radix-integer", "016_ff".into(), V::Int(255)));
     out.push(("float", "3.5".into(), V::Float(3.5)));
     out.push(("symbol", ":k".into(), V::Sym(symbol_value("k"))));
+    // the same number as an integer and as a float, and the same integer in two spellings: constants that compare
+    // equal (or hash alike) must still keep the kind each literal spells when both occur in one program
+    out.push(("float", "5.0".into(), V::Float(5.0)));
+    out.push(("radix-integer", "02_101".into(), V::Int(5)));
+    out.push(("integer", "0".into(), V::Int(0)));
+    out.push(("float", "0.0".into(), V::Float(0.0)));
+    out.push(("float", "255.0".into(), V::Float(255.0)));
+    out.push(("float", "1000.0".into(), V::Float(1000.0)));
     out
 }
 
